@@ -37,7 +37,12 @@ func main() {
 			if c == 0 {
 				n = 1
 			}
-			s := ringh.NewSession(run, rng)
+			backend := "memory"
+			if c%2 == 1 {
+				backend = "sqlite"
+			}
+			s := ringh.NewSessionBackend(run, rng, backend)
+			defer s.R.Close()
 			for _, k := range ringh.KeyTokens {
 				run.Raw("defkey " + k + " " + ringh.U(ringh.HashOf(k)))
 			}
